@@ -2476,6 +2476,18 @@ func unmarshalUDT(info TypeInfo, data []byte, value interface{}) error {
 	udt := info.(UDTTypeInfo)
 	for id, e := range udt.Elements {
 		if len(data) == 0 {
+			// the value carries fewer fields than the type (it was written
+			// before the fields were added): the missing fields are null, not
+			// what a reused struct held before
+			for _, missing := range udt.Elements[id:] {
+				f, ok := fields[missing.Name]
+				if !ok {
+					f = k.FieldByName(missing.Name)
+				}
+				if f.IsValid() && f.CanSet() {
+					f.Set(reflect.Zero(f.Type()))
+				}
+			}
 			return nil
 		}
 		if len(data) < 4 {
